@@ -187,6 +187,16 @@ fn run_bit(path: &str, h: u8, n: u32, data: &[u8], second: &[u8]) -> Option<(Str
                 d.fonts[0].name = "IBM VGA".into();
                 d.sauce = Some(doc::SauceD::default());
             }
+            if path == "icy" && !with_sauce {
+                // the native format stores the font's name next to its glyphs: empty, non-ASCII (multi-byte UTF-8) and long names
+                d.fonts[0].name = match data.get(1).copied().unwrap_or(0) % 5 {
+                    0 => String::new(),
+                    1 => "Schrift \u{e4}\u{2713} \u{1F600}".into(),
+                    2 => "a font name that is a good deal longer than the twenty-two characters SAUCE has room for".into(),
+                    3 => "\u{416}".repeat(40),
+                    _ => d.fonts[0].name.clone(),
+                };
+            }
             let buf = doc::build(&d);
             let bytes = match buf.to_bytes(ext, &save_opts(with_sauce, true)) {
                 Ok(b) => b,
@@ -585,7 +595,7 @@ impl Prop for C17 {
         "C17"
     }
     fn rule(&self) -> &'static str {
-        "bitmap fonts (8 x 1..=32, 256 glyphs, 512 for PSF2; all-zero / all-one / random glyph bytes, some starting with a PSF magic number; every built-in page 0..=42 and every SAUCE font) are sent through PSF2 bytes, raw data (create_8, from_basic, from_bytes), the DCS CTerm:Font sequence fed to the real ANSI parser, and embedding in XBin (1 and 2 fonts), ADF, IDF and IcyDraw files written and loaded by the engine (with and without a custom palette in the same file, with and without a SAUCE record that names the stock font 'IBM VGA' while the embedded glyphs differ); size, glyph count and every glyph must be bit-identical. TheDraw fonts (outline/block/colour, 0..=94 glyphs up to 30x12, names 0..=12, spacing 0..=40, bundles of 1..=34) are written with as_tdf_bytes / create_font_bundle, checked by an independent TDF reader in the harness (writer side) and re-read with from_tdf_bytes (reader side, glyph table via hook H5). distinct_nontrivial = distinct (path, height, glyph count, data class) / (bundle size, glyph layout) fingerprints"
+        "bitmap fonts (8 x 1..=32, 256 glyphs, 512 for PSF2; all-zero / all-one / random glyph bytes, some starting with a PSF magic number; every built-in page 0..=42 and every SAUCE font) are sent through PSF2 bytes, raw data (create_8, from_basic, from_bytes), the DCS CTerm:Font sequence fed to the real ANSI parser, and embedding in XBin (1 and 2 fonts), ADF, IDF and IcyDraw files written and loaded by the engine (with and without a custom palette in the same file, with and without a SAUCE record that names the stock font 'IBM VGA' while the embedded glyphs differ; IcyDraw also under empty, non-ASCII and long font names); size, glyph count and every glyph must be bit-identical. TheDraw fonts (outline/block/colour, 0..=94 glyphs up to 30x12, names 0..=12, spacing 0..=40, bundles of 1..=34) are written with as_tdf_bytes / create_font_bundle, checked by an independent TDF reader in the harness (writer side) and re-read with from_tdf_bytes (reader side, glyph table via hook H5). distinct_nontrivial = distinct (path, height, glyph count, data class) / (bundle size, glyph layout) fingerprints"
     }
     fn meta(&self, ctx: &Ctx) -> Value {
         json!({"floor_evaluations": 1000, "floor_distinct": ctx.tier.pick(800u64, 5000u64),
